@@ -225,3 +225,122 @@ def std_coverage(total, bounds):
     cov['exhaustive'] = total.get('inconclusive', 0) == 0
     cov['bounds'] = bounds
     return cov
+
+
+# ---------------------------------------------------------------------------
+# stack-size sweeps (C04, C08, C17, C18)
+# ---------------------------------------------------------------------------
+
+def _patch_stack(lines, S):
+    out = list(lines)
+    for i, l in enumerate(out):
+        if l.strip() == b'stack_start:':
+            assert out[i + 1].startswith(b'.zero ') and out[i + 1].endswith(b'w')
+            out[i + 1] = b'.zero %dw' % S
+            return out
+    raise HarnessError('stack_start not found')
+
+
+def _is_overflow_prefix(r, rtr):
+    """r ended in the stack_overflow error and everything before it is a prefix of the reference trace."""
+    if r.outcome != 'loop':
+        return False
+    pre = list(r.pre)
+    if len(pre) < 2 or pre[-2:] != [('f', 'stack_overflow'), ('f', 'error')]:
+        return False
+    body = pre[:-2]
+    return list(rtr[0][:len(body)]) == body
+
+
+def stack_sweep(st, src, prog, argv, W, tag, above=8, unchecked=False, max_S=400, mon_kw=None):
+    """Find the smallest stack size S_min at which the run does not overflow; check that
+    * every S < S_min ends in exactly the stack_overflow error with output a prefix of the reference,
+    * every S in [S_min, S_min+above] and the generous size reproduce the reference trace,
+    * no monitor fires anywhere.
+    Every size is compiled for real.  Returns S_min."""
+    mon_kw = mon_kw or {}
+    ref = ref_trace(prog, argv, W, checked=not unchecked)
+    if ref[0] != 'ok':
+        st.add('inconclusive')
+        return None
+    rtr = ref[1]
+    case0 = {'kind': 'sweep', 'src': src, 'prog': repr(prog), 'argv': list(argv), 'W': W, 'tag': tag, 'above': above,
+             'unchecked': unchecked}
+    base, err = compile_case(src, W, hid.GEN_STACK, unchecked)
+    st.add('evaluations')
+    if err:
+        st.viol(f'{tag}: not compiled: {err}', case0)
+        return None
+
+    def go(lines, S):
+        try:
+            P = svm.assemble(lines, argv, strict_header=True)
+        except svm.AsmError as e:
+            return None, f'assembler rejects output: {e}'
+        r = svm.run(P, 2_000_000, svm.Monitor(**mon_kw))
+        st.vm(r)
+        st.count('dims', f'W{W}')
+        return r, None
+
+    def bad(S, r, what):
+        c = dict(case0)
+        c['S'] = S
+        c['expected'] = svm.fmt_trace(rtr)
+        c['observed'] = describe(r) if r is not None else what
+        st.viol(f'{tag}: stack size {S} words (W={W}, argv={argv}): {what}: expected {svm.fmt_trace(rtr)[:200]} observed '
+                f'{describe(r)[:200] if r is not None else ""}', c)
+
+    smin = None
+    for S in range(1, max_S + 1):
+        lines, err = compile_case(src, W, S, unchecked)
+        if err:
+            bad(S, None, f'not compiled: {err}')
+            return None
+        r, e = go(lines, S)
+        if e:
+            bad(S, None, e)
+            return None
+        if r.violations:
+            v = r.violations[0]
+            bad(S, r, f'monitor[{v["monitor"]}] {v["msg"]} at `{v["instr"]}` in {v["owner"]}')
+            return None
+        if r.outcome == 'loop' and r.trace == rtr:
+            smin = S
+            break
+        if not _is_overflow_prefix(r, rtr):
+            bad(S, r, 'neither the stack_overflow error with a clean output prefix nor the reference behaviour (silent corruption)')
+            return None
+        st.add('overflow_runs')
+    if smin is None:
+        st.add('inconclusive')
+        return None
+    st.count('smin', str(smin))
+    st.add('traces_validated_against_impl')
+    for S in list(range(smin + 1, smin + above + 1)) + [hid.GEN_STACK, 4 * hid.GEN_STACK]:
+        lines, err = compile_case(src, W, S, unchecked)
+        if err:
+            bad(S, None, f'not compiled: {err}')
+            return smin
+        r, e = go(lines, S)
+        if e:
+            bad(S, None, e)
+            return smin
+        if r.violations:
+            v = r.violations[0]
+            bad(S, r, f'monitor[{v["monitor"]}] {v["msg"]} at `{v["instr"]}` in {v["owner"]}')
+            return smin
+        if not (r.outcome == 'loop' and r.trace == rtr):
+            bad(S, r, f'S_min={smin} but a larger stack behaves differently')
+            return smin
+        st.add('traces_validated_against_impl')
+    st.add('sweeps')
+    return smin
+
+
+def replay_sweep(case):
+    import ast
+    st = Stats()
+    prog = ast.literal_eval(case['prog'])
+    stack_sweep(st, case['src'], prog, case['argv'], case['W'], case.get('tag', ''), case.get('above', 8),
+                unchecked=case.get('unchecked', False))
+    return [v['msg'] for v in st.get('viol', [])]
